@@ -77,7 +77,13 @@ impl<C: Config, Q: Query> Snapshot<C, Q> {
 
         let entry = self.engine().executor_registry.get_executor_entry::<Q>();
 
+        #[cfg(feature = "verif_hooks")]
+        crate::engine::verif::yield_point("execute::before_executor").await;
+
         let result = entry.invoke_executor::<Q>(query, &tracked_engine).await;
+
+        #[cfg(feature = "verif_hooks")]
+        crate::engine::verif::yield_point("execute::after_executor").await;
 
         // WAIT POINT: We must wait all the potentially spawned threads that
         // might hold references to the tracked engine to finish before
@@ -85,6 +91,9 @@ impl<C: Config, Q: Query> Snapshot<C, Q> {
         // modify the query's state.
         drop(tracked_engine);
         wait_group.wait().await;
+
+        #[cfg(feature = "verif_hooks")]
+        crate::engine::verif::yield_point("execute::after_waitgroup").await;
 
         let is_in_scc = lock_guard.query_computing().is_in_scc();
 
@@ -114,6 +123,9 @@ impl<C: Config, Q: Query> Snapshot<C, Q> {
         let query = query.clone();
 
         async move {
+            #[cfg(feature = "verif_hooks")]
+            crate::engine::verif::yield_point("execute::publish_begin").await;
+
             let old_kind = self.query_kind().await;
             let existing_forward_edges = self.forward_edge_order().await;
 
